@@ -8,6 +8,7 @@ import (
 	auctionv1types "github.com/comdex-official/comdex/x/auction/types"
 	auctypes "github.com/comdex-official/comdex/x/auctionsV2/types"
 	lendtypes "github.com/comdex-official/comdex/x/lend/types"
+	liqv1types "github.com/comdex-official/comdex/x/liquidation/types"
 	liqtypes "github.com/comdex-official/comdex/x/liquidationsV2/types"
 
 	"vh/sim"
@@ -220,9 +221,10 @@ func (f *Fix) Project(e *sim.Env) M {
 	}
 	ks, _ := e.App.EsmKeeper.GetKillSwitchData(ctx, f.App)
 	off, _ := e.App.NewliqKeeper.GetLiquidationOffsetHolder(ctx, liqtypes.VaultLiquidationsOffsetPrefix, 1)
+	off1, _ := e.App.LiquidationKeeper.GetLiquidationOffsetHolder(ctx, lendtypes.AppID, liqv1types.VaultLiquidationsOffsetPrefix)
 	m := M{"nl": int64(k.GetUserLendIDCounter(ctx)), "nb": int64(k.GetUserBorrowIDCounter(ctx)), "price": price, "lends": lends, "borrows": borrows,
 		"stats": stats, "pb": pb, "ub": ub, "res": res, "rout": rout}
 	x := M{"t": int64(e.Time.Sub(sim.GenesisTime).Seconds()), "h": e.Height, "xb": xb, "auc": auc, "cs": cs, "aucs": aucs, "lv": lvs, "kb": kb,
-		"ks": ks.BreakerEnable, "off": int64(off.CurrentOffset), "v1lv": v1lv, "v1aucs": v1aucs, "auc1": auc1}
+		"ks": ks.BreakerEnable, "off": int64(off.CurrentOffset), "off1": int64(off1.CurrentOffset), "v1lv": v1lv, "v1aucs": v1aucs, "auc1": auc1}
 	return M{"m": m, "x": x}
 }
